@@ -13,7 +13,7 @@ import gen_exec as G
 class C02(Prop):
     id = "C02"
     driver = "Blocks"
-    lean_modules = ["Pfb.C02.Props", "Pfb.C05.Props", "Pfb.C04.Props", "Pfb.C02.Equiv", "Pfb.C04.KeepsMissing"]
+    lean_modules = ["Pfb.C02.Props", "Pfb.C05.Props", "Pfb.C04.Props", "Pfb.C02.Equiv", "Pfb.C04.KeepsMissing", "Pfb.C02.EquivC"]
     theorems = [
         # the analysis side of "no import whose binding is read is ever removed" (proved over the PyCore model,
         # which C05's correspondence ties to _MissingImportFinder): a read import is never reported unused
@@ -47,6 +47,16 @@ class C02(Prop):
         "Pfb.C02.witness_d10_hyps",
         "Pfb.C02.minv_empty",
         "Pfb.C02.loadModule_spec",
+        # ... lifted to fragment C: module-level defs (before or after the block) whose bodies read the imports when called
+        "Pfb.C02.C02_reorder_equiv_fragC",
+        "Pfb.C02.reorder_coreC",
+        "Pfb.C02.C02_late_import_read_by_function",
+        "Pfb.C02.callBody_rel",
+        "Pfb.C02.stmtsRelF",
+        "Pfb.C02.importStmt_specC",
+        "Pfb.C02.late_import_sameRun",
+        "Pfb.C02.late_import_witness",
+        "Pfb.C02.def_after_block_sameRun",
     ]
     anchors = [
         ("lib/python/pyflyby/_autoimp.py", "_MissingImportFinder._scan_unused_imports"),
